@@ -1,4 +1,5 @@
 # C15 - WMO root and group files survive write -> parse unchanged (crate file-formats/graphics/wow-wmo)
+# Notes, measured times and the findings: harness/wmo/NOTES.md
 CRATES["wmo"] = {
     "dir": "file-formats/graphics/wow-wmo",
     "attach": [
@@ -7,12 +8,12 @@ CRATES["wmo"] = {
         ("src/converter.rs", "wmo/converter.rs", "verif_kani_converter", ""),
         ("src/chunk_discovery.rs", "wmo/discovery.rs", "verif_kani_discovery", ""),
     ],
-    # hashbrown is not executable under CBMC in reasonable time: the chunk-table type private to parser.rs is replaced by an
-    # association list with the same new/insert/get contract (wmo/common.rs VMap); parse_* bodies are untouched.  If these
-    # anchors disappear the scratch copy no longer compiles and the check exits 2.
+    # Applied to the scratch copy only.  If an anchor disappears the copy no longer compiles and the check exits 2.
     "rewrite": [
-        # visibility only: lets the parser-side harnesses call the private chunk writers directly (small buffers)
+        # visibility only: lets the parser-/discovery-side harnesses call the private chunk writers directly (<= 64-byte buffers)
         ("src/writer.rs", r"^    fn write_(?!u8|u16_le|u32_le|i16_le|i32_le|f32_le)", "    pub(crate) fn write_"),
+        # hashbrown is not executable under CBMC in reasonable time: the chunk-table type private to parser.rs is replaced by an
+        # inline association list with the same new/insert/get contract (wmo/common.rs VMap); read_chunks/parse_* bodies untouched
         ("src/parser.rs", r"HashMap<ChunkId, Chunk>", "ChunkTable"),
         ("src/parser.rs", r"let mut chunks = HashMap::new\(\);", "let mut chunks = ChunkTable::new();"),
         ("src/parser.rs", r"^use std::collections::HashMap;$",
@@ -23,26 +24,158 @@ CRATES["wmo"] = {
 _WW = "verif_kani_writer"
 _WP = "verif_kani_parser"
 _WC = "verif_kani_converter"
-_WA = "verif_kani_discovery"
-H("C15", "wmo", _WW, "quick", "probe", [
-    "c15a_momt_framing_1", "c15a_momt_framing_2", "c15a_momt_framing_witness",
-    "c15a_mogi_framing_1", "c15a_mogi_framing_2", "c15a_mopr_framing", "c15a_portals_framing", "c15a_portal_vertex_ranges", "c15c_doodad_name_table", "c15b_skybox_flag_iff_chunk", "c15d_group_legacy_parser_witness", "c15a_visible_lists_framing",
-    "c15a_molt_framing_and_entry", "c15a_mods_framing_and_entry", "c15a_doodad_defs_framing", "c15c_motx_mogn_mosb_framing",
-    "c15a_group_vectors_framing", "c15a_group_scalars_framing", "c15a_moba_framing_and_entry", "c15a_mobn_framing",
-    "c15b_root_counts_and_tiling", "c15b_root_tiling_classic", "c15b_root_empty_all_versions", "c15d_group_backpatch", "c15d_group_backpatch_empty",
-    "c15d_group_header_size_witness", "c15a_mliq_framing_witness", "c15a_mobn_vs_entry_witness", "c15c_mogi_name_offset_witness",
-], ["writer::WmoWriter::*"], "probe", "probe", timeout=600)
-H("C15", "wmo", _WW, "thorough", "probe", ["c15a_momt_vs_entry"], ["writer::WmoWriter::*"], "probe", "probe", timeout=2400)
-H("C15", "wmo", _WW, "quick", "canary", ["c15_writer_canary"], ["writer::WmoWriter::write_indices"], "vacuity twin", "-", expect="canary", timeout=600)
-H("C15", "wmo", _WP, "quick", "probe", [
-    "c15p_materials_roundtrip", "c15p_header_roundtrip", "c15p_lights_roundtrip", "c15p_portal_refs_roundtrip", "c15p_portals_roundtrip",
-    "c15p_visible_lists_roundtrip", "c15p_doodad_defs_roundtrip", "c15p_doodad_name_offset_witness", "c15p_doodad_sets_roundtrip",
-    "c15p_group_info_roundtrip_1", "c15p_group_names_witness", "c15p_skybox_witness", "c15p_parse_root_concrete", "c15p_root_bbox_witness",
-    "c15p_portals_roundtrip_2",
-], ["parser::WmoParser::*"], "probe", "probe", timeout=900)
-H("C15", "wmo", _WP, "thorough", "probe", ["c15p_textures_roundtrip"], ["parser::WmoParser::*"], "probe", "probe", timeout=1500)
-H("C15", "wmo", _WP, "quick", "canary", ["c15_parser_canary"], ["writer::WmoWriter::write_root"], "vacuity twin", "-", expect="canary", timeout=600)
-H("C15", "wmo", _WC, "quick", "probe", ["c15e_convert_root_preserves_content", "c15e_convert_group_preserves_content"], ["converter::*"], "probe", "probe", timeout=600)
-H("C15", "wmo", _WC, "quick", "canary", ["c15_converter_canary"], ["converter::WmoConverter::convert_root"], "vacuity twin", "-", expect="canary", timeout=600)
-H("C15", "wmo", _WA, "quick", "probe", ["c15r_header_via_root_parser", "c15r_light_via_root_parser", "c15r_records_via_root_parser", "c15r_group_info_via_root_parser", "c15r_root_mohd_size_witness", "c15r_group_via_parse_wmo_witness"], ["api::parse_wmo"], "probe", "probe", timeout=1200)
-H("C15", "wmo", _WA, "quick", "canary", ["c15_discovery_canary"], ["root_parser::parse_root_file"], "vacuity twin", "-", expect="canary", timeout=600)
+_WD = "verif_kani_discovery"
+_TR = "tracing DefaultCallsite::interest -> never, __macro_support::__is_enabled -> false, Event::dispatch -> no-op (environment model: no subscriber installed, MAX_LEVEL = OFF; cuts never-executed dispatch code that crashes Kani's compiler)"
+_FDD = "std::fmt::format -> the fixed string \"dd\" (abstraction of the synthesised doodad names doodad_<n>)"
+_TAB = "scratch-copy rewrite: parser.rs chunk table HashMap<ChunkId,Chunk> -> inline association list VMap with the same new/insert/get contract (hashbrown not executable under CBMC)"
+_VIS = "scratch-copy rewrite: private WmoWriter::write_* made pub(crate) (visibility only)"
+_LOSSY = "String::from_utf8_lossy -> identity on the (ASCII) input"
+_V5 = "target version symbolic in Classic..MoP"
+
+# ----------------------------------------------------------------------------- C15.a chunk framing per writer (quick)
+H("C15", "wmo", _WW, "quick", "C15.a MOMT: declared size == bytes written == n x 64, record offsets (1 and 2 materials, MoP and later)",
+  ["c15a_momt_framing_1", "c15a_momt_framing_2"], ["writer::WmoWriter::write_materials", "chunk::ChunkHeader::write"],
+  "every material field symbolic (flags via from_bits_truncate); version symbolic in MoP..WarWithin (1 material) / MoP (2)", "1 and 2 materials",
+  assumes=["target version >= MoP (known finding KF-C15-momt-size excluded)"], stubs=[FMT])
+H("C15", "wmo", _WW, "quick", "C15.a witness: MOMT for Classic declares 40 bytes per material and writes 64", ["c15a_momt_framing_witness"],
+  ["writer::WmoWriter::write_materials"], "concrete: one default material, Classic", "one input", stubs=[FMT], expect="witness:KF-C15-momt-size")
+H("C15", "wmo", _WW, "quick", "C15.a MOGI framing (n x 32) and record as chunks::MogiEntry reads it (flags, bounding box)",
+  ["c15a_mogi_framing_1", "c15a_mogi_framing_2"], ["writer::WmoWriter::write_group_info", "chunks::MogiEntry::read"],
+  "group flags and bounding box symbolic; " + _V5, "1 and 2 groups (names empty: not written by this chunk)", stubs=[FMT])
+H("C15", "wmo", _WW, "quick", "C15.a MOPR / MOPV+MOPT / MOVV+MOVB / MOLT / MODS / MODN+MODD: chunks tile the bytes written, payload == n x record size, "
+  "records as the crate's binrw readers see them (field order, BGRA colours), offset tables address their data",
+  ["c15a_mopr_framing", "c15a_portals_framing", "c15a_portal_vertex_ranges", "c15a_visible_lists_framing", "c15a_molt_framing_and_entry",
+   "c15a_mods_framing_and_entry", "c15a_doodad_defs_framing"],
+  ["writer::WmoWriter::{write_portal_references,write_portals,write_visible_block_lists,write_lights,write_doodad_sets,write_doodad_definitions}",
+   "chunks::{MoprEntry,MoptEntry,MopvEntry,MoltEntry,ModsEntry,ModdEntry}::read"],
+  "element contents symbolic (portal: two symbolic vertices with normal (0,0,1); vertex ranges of 4 portals with concrete contents; lists [a,b],[],[c]; "
+  "2 lights; set name 3 ASCII bytes; 1 doodad); " + _V5 + " where the writer takes one",
+  "1-4 elements per list, buffers <= 160 bytes", stubs=[FMT, _FDD])
+H("C15", "wmo", _WW, "quick", "C15.c string chunks MOTX / MOGN / MOSB: declared size == sum(len+1), names NUL-terminated at the running offsets",
+  ["c15c_motx_mogn_mosb_framing"], ["writer::WmoWriter::{write_textures,write_group_names,write_skybox}"],
+  "two names of 3 and 2 symbolic non-NUL ASCII bytes (covers shared prefixes)", "2 names", stubs=[FMT])
+H("C15", "wmo", _WW, "thorough", "C15.c MODD name offsets are the running sums of the name lengths and address name starts in MODN", ["c15c_doodad_name_table"],
+  ["writer::WmoWriter::write_doodad_definitions"], "3 doodads with concrete contents", "3 doodads", stubs=[_FDD], timeout=2400)
+H("C15", "wmo", _WW, "quick", "C15.c witness: MOGI name offset is 0 for every group", ["c15c_mogi_name_offset_witness"],
+  ["writer::WmoWriter::{write_group_names,write_group_info}"], "concrete: groups \"ab\", \"cd\"", "one input", stubs=[FMT], expect="witness:KF-C15-mogi-nameoff")
+H("C15", "wmo", _WW, "quick", "C15.a group chunks MOVT / MONR / MOTV / MOVI / MODR / MOCV / MOBA / MOBN: framing n x record size, element positions, "
+  "MOVT/MOCV/MOBA records as the crate's binrw readers see them",
+  ["c15a_group_vectors_framing", "c15a_group_scalars_framing", "c15a_moba_framing_and_entry", "c15a_mobn_framing"],
+  ["writer::WmoWriter::{write_vertices,write_normals,write_texture_coords,write_indices,write_doodad_refs,write_vertex_colors,write_batches,write_bsp_nodes}",
+   "chunks::{MovtEntry,MocvEntry,MobaEntry}::read"],
+  "all element contents symbolic (f32 any bit pattern, compared by bits)", "2-3 elements per list", stubs=[FMT])
+H("C15", "wmo", _WW, "quick", "C15.a witness: MLIQ declares a 32-byte header and writes 40", ["c15a_mliq_framing_witness"], ["writer::WmoWriter::write_liquid"],
+  "concrete: 1x1 liquid, Classic", "one input", stubs=[FMT], expect="witness:KF-C15-mliq-size")
+H("C15", "wmo", _WW, "quick", "C15.a witness: BSP node written by write_bsp_nodes read by chunks::MobnEntry", ["c15a_mobn_vs_entry_witness"],
+  ["writer::WmoWriter::write_bsp_nodes", "chunks::MobnEntry::read"], "concrete: z-plane node, distance 5, children 7/9, faces 3/2", "one input", stubs=[FMT],
+  expect="witness:KF-C15-mobn-layout")
+# ----------------------------------------------------------------------------- C15.b root framing / counts
+H("C15", "wmo", _WW, "quick", "C15.b write_root: MVER+MOHD of a root with empty lists for all 11 versions (raw version, counts 0, HAS_SKYBOX clear); "
+  "HAS_SKYBOX in MOHD <=> MOSB chunk written <=> skybox present and version >= WotLK",
+  ["c15b_root_empty_all_versions", "c15b_skybox_flag_iff_chunk"],
+  ["writer::WmoWriter::{write_root,write_version,write_header,write_skybox}", "version::WmoVersion::{to_raw,supports_feature}"],
+  "version symbolic over all 11; stale header counts, flags, ambient colour, bounding box symbolic; skybox presence symbolic", "no list elements", stubs=[FMT, RS])
+H("C15", "wmo", _WW, "quick", "C15.b write_root on a fully populated root: the reference chunk walker tiles the file in the expected chunk order, MOHD counts == list "
+  "lengths (not the stale header fields) == records implied by the chunk sizes, bounding box position",
+  ["c15b_root_counts_and_tiling", "c15b_root_tiling_classic"], ["writer::WmoWriter::write_root and every root chunk writer"],
+  "fixed-record lists populated with lengths 1-3 (materials 2, portal refs 2, lights 3, sets 2) + skybox, element contents concrete; lists whose chunk size "
+  "depends on element data (names, portal vertices, visible lists, synthesised doodad names) empty - covered per chunk; versions MoP / {Classic, TBC}", "one root shape, 7 / 4 chunks, ~480 bytes",
+  assumes=["pre-MoP variant has no materials (known finding KF-C15-momt-size)"],
+  stubs=[_FDD, RS])
+# ----------------------------------------------------------------------------- C15.d group
+H("C15", "wmo", _WW, "quick", "C15.d write_group: MOGP size back-patched to the bytes that follow; sub-chunks MOVT,MOVI,MONR,MOTV,MOCV,MOBA,MOBN,MODR tile the payload "
+  "after the group header; empty group declares just its header", ["c15d_group_backpatch", "c15d_group_backpatch_empty"],
+  ["writer::WmoWriter::write_group and every group chunk writer except write_liquid"], "one element per list, contents symbolic; " + _V5 + " / all 11 (empty group)",
+  "1 vertex, 3 indices, 1 batch, 1 BSP node, no liquid",
+  assumes=["sub-chunks are looked for 36 bytes after the MOGP header, where this writer puts them (known finding KF-C15-mogp-header)"], stubs=[FMT])
+H("C15", "wmo", _WW, "quick", "C15.d witness: group header written is 36 bytes, WmoGroupHeader::SIZE / the format 68", ["c15d_group_header_size_witness"],
+  ["writer::WmoWriter::write_group", "wmo_group_types::WmoGroupHeader::SIZE"], "concrete: group with one vertex", "one input", stubs=[FMT], expect="witness:KF-C15-mogp-header")
+H("C15", "wmo", _WW, "quick", "C15.d witness: WmoGroupParser::parse_group rejects every group file (stub)", ["c15d_group_legacy_parser_witness"],
+  ["writer::WmoWriter::write_group", "group_parser::WmoGroupParser::parse_group"], "concrete: group with one vertex", "one input", stubs=[FMT],
+  expect="witness:KF-C15-group-parser-stub")
+H("C15", "wmo", _WW, "quick", "C15.b witness: MOHD payload is 60 bytes, the format / root_parser::Mohd 64", ["c15b_mohd_size_witness"],
+  ["writer::WmoWriter::write_header"], "concrete: empty root, Classic", "one input", stubs=[FMT, RS], expect="witness:KF-C15-mohd-size")
+H("C15", "wmo", _WW, "quick", "canary", ["c15_writer_canary"], ["writer::WmoWriter::write_indices"], "vacuity twin", "-", expect="canary", stubs=[FMT])
+H("C15", "wmo", _WW, "thorough", "C15.a MOMT record as chunks::MomtEntry (parse_wmo) reads it", ["c15a_momt_vs_entry"],
+  ["writer::WmoWriter::write_materials", "chunks::MomtEntry::read"], "every material field symbolic, MoP", "1 material", stubs=[FMT], timeout=2400)
+
+# ----------------------------------------------------------------------------- writer -> real private parser (WmoParser)
+_PS = [FMT, _TR, _TAB, _VIS]
+H("C15", "wmo", _WP, "quick", "C15.a(T) element written by the real chunk writer comes back equal from the real private parser (WmoParser::parse_*) through a "
+  "one/two-entry chunk table; parser consumes exactly the record written",
+  ["c15p_materials_roundtrip", "c15p_lights_roundtrip", "c15p_portal_refs_roundtrip", "c15p_portals_roundtrip", "c15p_visible_lists_roundtrip",
+   "c15p_doodad_defs_roundtrip", "c15p_doodad_sets_roundtrip", "c15p_group_info_roundtrip_1"],
+  ["parser::WmoParser::{parse_materials,parse_lights,parse_portal_references,parse_portals,parse_visible_block_lists,parse_doodad_defs,parse_doodad_sets,parse_group_info,get_string_at_offset}",
+   "chunk::Chunk::{seek_to_data,read_data}", "writer::WmoWriter::write_* of the same chunk", "wmo_types::WmoLightType::from_raw"],
+  "every on-disk field of the element symbolic (1 material, 1 light, 2 portal refs, 1 portal with 2 vertices, lists [a,b],[],[c], 1 doodad, 1 set, 1 group); " + _V5 +
+  "; chunk position/size literals checked against the written bytes",
+  "one element (two for MOPR), buffers <= 64 bytes (MOMT 72)",
+  assumes=["visible-list elements != 0xFFFF (in-band terminator)", "doodad name_offset == 0 (known finding KF-C15-doodad-nameoff)",
+           "group / doodad-set names concrete (the parser scans them for NUL)", "portal normal (0,0,1) (the writer multiplies normal by vertex)"],
+  stubs=_PS + [_FDD, _LOSSY])
+H("C15", "wmo", _WP, "quick", "C15.b(T) MOHD written by write_root -> parse_header: counts, ambient colour, flags (HAS_SKYBOX cleared without skybox)",
+  ["c15p_header_roundtrip"], ["parser::WmoParser::parse_header", "writer::WmoWriter::{write_root,write_header}"],
+  "header flags, ambient colour, stale counts, bounding box symbolic; " + _V5, "root without list elements (80 bytes)", stubs=_PS + [RS])
+H("C15", "wmo", _WP, "quick", "C15.c witness: doodad name offset after write -> parse_doodad_defs", ["c15p_doodad_name_offset_witness"],
+  ["writer::WmoWriter::write_doodad_definitions", "parser::WmoParser::parse_doodad_defs"], "concrete: one doodad with name_offset 5", "one input", stubs=_PS + [_FDD],
+  expect="witness:KF-C15-doodad-nameoff")
+H("C15", "wmo", _WP, "quick", "C15 witness: skybox of a WotLK root after write_root -> parse_header/parse_skybox", ["c15p_skybox_witness"],
+  ["writer::WmoWriter::write_root", "parser::WmoParser::{parse_header,parse_skybox}", "version::WmoVersion::from_raw"], "concrete: skybox \"s\", WotLK", "one input",
+  stubs=_PS + [RS, _LOSSY], expect="witness:KF-C15-skybox-v17")
+H("C15", "wmo", _WP, "quick", "C15 witness: bounding box after write_root -> parse_header / parse_group_info / calculate_global_bounding_box (the steps of parse_root)",
+  ["c15p_root_bbox_witness"], ["writer::WmoWriter::write_root", "parser::WmoParser::{parse_header,parse_group_info,calculate_global_bounding_box}"],
+  "concrete: empty root, box max (1,1,1)", "one input", stubs=_PS + [RS], expect="witness:KF-C15-root-bbox")
+H("C15", "wmo", _WP, "quick", "canary", ["c15_parser_canary"], ["parser::WmoParser::parse_portal_references"], "vacuity twin", "-", expect="canary", stubs=_PS)
+H("C15", "wmo", _WP, "thorough", "C15.b(T) parse_root(write_root(x)) for one concrete root with every fixed-record list populated: read_chunks + parse_version + every "
+  "parse_*; list lengths, header counts and one field of every populated list come back", ["c15p_parse_root_concrete"],
+  ["parser::WmoParser::{parse_root,read_chunks,parse_version,parse_* (all)}", "writer::WmoWriter::write_root"],
+  "concrete content (read_chunks walks sizes read from the file bytes), MoP; materials 2, portal refs 2, lights 3", "one root, 5 chunks, ~390 bytes",
+  assumes=["no skybox, bounding box not compared (known findings KF-C15-skybox-v17, KF-C15-root-bbox)"], stubs=_PS + [_FDD, RS, _LOSSY], timeout=2400)
+H("C15", "wmo", _WP, "thorough", "C15.a(T) two portals: vertices attributed to the right portal", ["c15p_portals_roundtrip_2"],
+  ["parser::WmoParser::parse_portals", "writer::WmoWriter::write_portals"], "portal 0: symbolic normal, vertex (1,0,0); portal 1: two symbolic vertices, normal (0,0,1)",
+  "2 portals, 92-byte buffer", stubs=_PS, timeout=2400)
+H("C15", "wmo", _WP, "quick", "C15.c(T) texture names and offset table size after write_textures -> parse_textures", ["c15p_textures_roundtrip"],
+  ["parser::WmoParser::parse_textures", "writer::WmoWriter::write_textures"], "concrete names \"abc\", \"ab\" (the offset table is a real std HashMap)", "2 names",
+  stubs=_PS + [RS])
+
+# ----------------------------------------------------------------------------- writer -> parse_root_file (reader behind parse_wmo)
+_DS = [FMT, RS, _VIS]
+H("C15", "wmo", _WD, "quick", "C15.a/b(T) chunks written by the real chunk writers -> root_parser::parse_root_file (the reader behind parse_wmo) with a literal chunk "
+  "discovery: record counts from chunk sizes, field order, MOHD counts / ambient colour / bounding box",
+  ["c15r_header_via_root_parser", "c15r_light_via_root_parser", "c15r_records_via_root_parser", "c15r_group_info_via_root_parser"],
+  ["root_parser::parse_root_file", "root_parser::Mohd::read", "chunks::{MoltEntry,MoprEntry,ModsEntry,MogiEntry}::read", "chunks::Mogn::parse", "chunk_id::ChunkId::as_str",
+   "writer::WmoWriter::{write_header,write_lights,write_portal_references,write_doodad_sets,write_group_names,write_group_info}"],
+  "element contents symbolic (header flags/colour/box, 1 light, 2 portal refs + 1 set with 3-byte ASCII name, 1 group named \"grp\"); " + _V5,
+  "one or two chunks, buffers <= 72 bytes",
+  assumes=["MOHD: the 4 bytes following the 60 written stand for the next chunk's id; flags/num_lod not compared (known finding KF-C15-mohd-size)"], stubs=_DS)
+H("C15", "wmo", _WD, "quick", "C15 witness: header flags after write_header -> parse_root_file (reader behind parse_wmo)", ["c15r_root_mohd_size_witness"],
+  ["writer::WmoWriter::write_header", "root_parser::parse_root_file", "root_parser::Mohd::read"], "concrete: flags OUTDOOR, Classic; literal chunk discovery", "one input", stubs=_DS,
+  expect="witness:KF-C15-mohd-size")
+H("C15", "wmo", _WD, "quick", "canary", ["c15_discovery_canary"], ["root_parser::parse_root_file"], "vacuity twin", "-", expect="canary", stubs=_DS)
+
+# ----------------------------------------------------------------------------- conversion
+H("C15", "wmo", _WC, "quick", "C15.e conversion between every pair of versions succeeds, sets the version, keeps list lengths and every field except bits that do not "
+  "exist in the target version (material shadow-batch bits below MoP, skybox + HAS_SKYBOX below WotLK; group flags introduced after the target; liquid format bit)",
+  ["c15e_convert_root_preserves_content", "c15e_convert_group_preserves_content"],
+  ["converter::WmoConverter::{convert_root,convert_group,convert_header_flags,convert_materials,convert_group_flags,upgrade_liquid_to_v2,downgrade_liquid_from_v2}"],
+  "from/to (current/target) version symbolic over all 11 x 11 pairs; one material, portal ref, light, doodad with symbolic contents, skybox presence symbolic; "
+  "group with one element per list and a 1x1 liquid, flags symbolic",
+  "one element per list", assumes=["well-formed root: skybox only from WotLK on, HAS_SKYBOX set exactly when a skybox is present"], stubs=[FMT, RS, _TR])
+H("C15", "wmo", _WC, "quick", "canary", ["c15_converter_canary"], ["converter::WmoConverter::convert_root"], "vacuity twin", "-", expect="canary", stubs=[FMT, RS, _TR])
+
+OUTSIDE["C15"] = [
+    "whole-file equality parse_root(write_root(x)) == x with symbolic content (read_chunks walks sizes read from the file; decided only for one concrete populated root and chunk by chunk)",
+    "write -> parse -> second write byte identity beyond what per-chunk equality of every on-disk field implies",
+    "lists longer than 1-4 elements, names longer than 3 bytes (18 for one concrete doodad-set name), non-ASCII names, empty names (the parser substitutes Group_<i>)",
+    "texture offset table contents (only its size, thorough tier) and WmoMaterial::get_texture*_index (std HashMap)",
+    "group files: no parser for the legacy WmoGroup type exists (KF-C15-group-parser-stub) and parse_wmo cannot read write_group's output (KF-C15-mogp-header); "
+    "only writer-side framing of group chunks and three record layouts (MOVT, MOCV, MOBA) are decided",
+    "MLIQ beyond the witness (framing broken, KF-C15-mliq-size); liquid vertex layouts pre/post WoD; width == 0 underflow",
+    "MOBN content (layout differs from the crate's reader, KF-C15-mobn-layout; the plane normal is stored lossily)",
+    "MOVV/MOVB as root_parser reads them (vertices + ranges) - writer and WmoParser use an offset table + 0xFFFF-terminated lists",
+    "MOMT below MoP beyond the witness; MomtEntry texture_3/color_2/flags_2 (not in WmoMaterial)",
+    "chunk_discovery::discover_chunks and api::parse_wmo themselves (stage 1 of the public reader): > 10 min for 12 symbolic bytes, > 10 GB for one concrete 80-byte file; stage 2 (parse_root_file / parse_group_file) is driven with a literal chunk discovery instead",
+    "convex volume planes (MCVP), fog, and every chunk the writer never emits; WmoEditor; validator",
+    "fields that are not on disk in this writer: WmoLight::properties, WmoMaterial::framebuffer_blend, WmoDoodadDef::set_index, upper 8 bits of the MODD name index",
+    "conversion: only field preservation of convert_root/convert_group; convert-then-write-then-parse is covered by the per-version writer harnesses, not as one composition",
+]
